@@ -101,7 +101,7 @@ func TestCheck(t *testing.T) {
 
 	// Phase 1: well-formed queries over every path, a few concurrent senders
 	// per path, then the cross-transport comparison.
-	nValid := r.N(400, 4000)
+	nValid := r.N(400, 16000)
 	valid := make([]*input, nValid)
 	for i := range valid {
 		valid[i] = genValid(r, i, e.salt)
